@@ -179,11 +179,14 @@ type c13Out struct {
 }
 
 // cli runs the real CLI (built from the working tree, no verif tag) inside the source namespace.
-func (l *lab) cli(args ...string) c13Out {
+func (l *lab) cli(args ...string) c13Out { return l.cliIn(0, args...) }
+
+// cliIn runs the CLI inside node k of the chain (0 = source host, n+1 = destination host).
+func (l *lab) cliIn(k int, args ...string) c13Out {
 	bin := filepath.Join(os.Getenv("VERIF_BUILD_DIR"), "datadog-traceroute")
 	ctx, cancel := context.WithTimeout(context.Background(), 120*time.Second)
 	defer cancel()
-	cmd := exec.CommandContext(ctx, "ip", append([]string{"netns", "exec", l.ns[0], bin}, args...)...)
+	cmd := exec.CommandContext(ctx, "ip", append([]string{"netns", "exec", l.ns[k], bin}, args...)...)
 	var so, se bytes.Buffer
 	cmd.Stdout, cmd.Stderr = &so, &se
 	err := cmd.Run()
@@ -373,6 +376,38 @@ func checkC13() fw.Check {
 				)
 			}
 			n0 := ns[len(ns)-1]
+			// path length 0: the tool runs ON the destination host and traces its own addresses (loopback and the
+			// interface address): one hop, the destination itself
+			for _, lc := range []struct {
+				name, target string
+				args         []string
+			}{
+				{"icmp", "127.0.0.1", []string{"-P", "icmp"}},
+				{"udp", "127.0.0.1", []string{"-P", "udp"}},
+				{"tcp-syn-open", "127.0.0.1", []string{"-P", "tcp", "-p", "8080", "--tcp-method", "syn"}},
+				{"tcp-sack-open", "127.0.0.1", []string{"-P", "tcp", "-p", "8080", "--tcp-method", "sack"}},
+				{"tcp-prefer-sack-open", "127.0.0.1", []string{"-P", "tcp", "-p", "8080", "--tcp-method", "prefer_sack"}},
+				{"tcp-prefer-sack-closed", "127.0.0.1", []string{"-P", "tcp", "-p", "8099", "--tcp-method", "prefer_sack"}},
+				{"icmp6", "::1", []string{"-P", "icmp", "--ipv6"}},
+				{"icmp-own-address", "", []string{"-P", "icmp"}},
+				{"tcp-sack-own-address", "", []string{"-P", "tcp", "-p", "8080", "--tcp-method", "sack"}},
+			} {
+				lc := lc
+				cfgs = append(cfgs, c13Cfg{name: fmt.Sprintf("local-%s/N%d", lc.name, n0), n: n0, run: func(l *lab) (c13Out, string) {
+					target := lc.target
+					if target == "" {
+						target = l.dest(false)
+					}
+					o := l.cliIn(l.n+1, append(append([]string{}, lc.args...), "-q", "1", "-Q", "0", "-m", "3", "--timeout", "1000", target)...)
+					if o.err != "" {
+						return o, "CLI failed: " + o.err
+					}
+					if len(o.runs) != 1 {
+						return o, "expected one run"
+					}
+					return o, judgeRun(o.runs[0], []string{target}, 1, false)
+				}})
+			}
 			// one router silent
 			for _, proto := range []string{"icmp", "udp", "tcp"} {
 				proto := proto
